@@ -3,7 +3,13 @@
     Only statements, [exact lemma] proofs, [Print Assumptions] and non-vacuity examples.
     The model of smt/serialize.rs is [SmtSer.ser] / [ser_cmd] / [ser_type] / [escape_id]; the
     SMT-LIB side ([scheck], [seval], [cmd_check], [symbol_name], ...) is the reference front
-    end of [Spec/Smt.v], written from the standard.  [ebv]/[earr] is the semantics of the IR. *)
+    end of [Spec/Smt.v], written from the standard.  [ebv]/[earr] is the semantics of the IR.
+
+    The model has two variants ([SmtSer.variant]): [Cur] mirrors /repo as it is, [Fix] mirrors
+    /repo with patches/0014 (reserved words are quoted) and patches/0015 (set-info is written
+    as set-info).  Theorems that hold for both are stated for every [v]; the recorded defects
+    are [_refuted] theorems about [Cur], the full-strength statements are theorems about [Fix].
+    The driver's constant [code_variant] says which variant the checked code is. *)
 From Patronus Require Import SmtSer SmtSerLemmas SmtSemLemmas SmtSerProofs SmtCmdProofs SmtSpecProofs.
 Open Scope string_scope.
 Open Scope N_scope.
@@ -14,11 +20,11 @@ Open Scope N_scope.
     sort - and under every assignment its SMT-LIB value is the value of the expression.
     All operators, division and remainder included. *)
 Theorem C05_ser_sorted_sound :
-  forall (G : sctx) (e : expr) (mb : bool),
-    wt e = true -> built e = true -> symbols_declared G e = true ->
-    scheck G (ser e mb) = Some (sort_for (type_of e) mb) /\
+  forall (v : variant) (G : sctx) (e : expr) (mb : bool),
+    wt e = true -> built e = true -> symbols_declared v G e = true ->
+    scheck G (ser v e mb) = Some (sort_for (type_of e) mb) /\
     forall rho, env_wf rho ->
-      seval (smodel_of G rho) (ser e mb) = Some (sval_for (type_of e) mb (ebv rho e) (earr rho e)).
+      seval (smodel_of G rho) (ser v e mb) = Some (sval_for (type_of e) mb (ebv rho e) (earr rho e)).
 Proof. exact ser_sorted_sound_lemma. Qed.
 Print Assumptions C05_ser_sorted_sound.
 
@@ -29,26 +35,32 @@ Theorem C05_ser_type_sound :
 Proof. exact sort_of_sx_ser_type. Qed.
 Print Assumptions C05_ser_type_sound.
 
-(** Identifier quoting: a name made of characters that may appear between bars and that is
-    not a reserved word is written as one symbol token denoting exactly that name. *)
+(** Identifier quoting, repaired code (patches/0014): EVERY name made of characters that may
+    appear between bars is written as one symbol token denoting exactly that name. *)
 Theorem C05_escape_sound :
-  forall n : string, name_chars_ok n = true -> is_reserved n = false ->
-    symbol_name (escape_id n) = Some n.
-Proof. exact escape_sound_lemma. Qed.
+  forall n : string, name_chars_ok n = true -> symbol_name (escape_id Fix n) = Some n.
+Proof. exact escape_sound_fix. Qed.
 Print Assumptions C05_escape_sound.
+
+(** ... current code: the same for names that are not reserved words (both variants). *)
+Theorem C05_escape_sound_outside_known :
+  forall (v : variant) (n : string), name_chars_ok n = true -> is_reserved n = false ->
+    symbol_name (escape_id v n) = Some n.
+Proof. exact escape_sound_lemma. Qed.
+Print Assumptions C05_escape_sound_outside_known.
 
 (** ... and such a name, if no theory owns it, satisfies the hypothesis [name_ok] that
     [symbols_declared] asks of every symbol. *)
 Theorem C05_name_ok_intro :
-  forall n : string, name_chars_ok n = true -> is_reserved n = false -> is_theory_name n = false ->
-    is_solver_reserved n = false -> name_ok n = true.
+  forall (v : variant) (n : string), name_chars_ok n = true -> is_reserved n = false -> is_theory_name n = false ->
+    is_solver_reserved n = false -> name_ok v n = true.
 Proof. exact name_ok_intro. Qed.
 Print Assumptions C05_name_ok_intro.
 
-(** Recorded defect: reserved words are written bare, which is not a symbol; the quoted form
-    would have been one. *)
+(** Recorded defect of the current code: reserved words are written bare, which is not a symbol;
+    the quoted form would have been one. *)
 Theorem C05_escape_reserved_refuted :
-  exists n, name_chars_ok n = true /\ symbol_name (escape_id n) = None /\
+  exists n, name_chars_ok n = true /\ symbol_name (escape_id Cur n) = None /\
             symbol_name (String.append "|" (String.append n "|")) = Some n.
 Proof. exact escape_reserved_refuted. Qed.
 Print Assumptions C05_escape_reserved_refuted.
@@ -57,29 +69,35 @@ Print Assumptions C05_escape_reserved_refuted.
     argument-free ones) are accepted by the reference front end in the context of the declared
     symbols and leave the expected context. *)
 Theorem C05_ser_cmd_wf :
-  forall (G : sctx) (c : smt_cmd), cmd_pre G c ->
-    exists t, ser_cmd c = Ok t /\ cmd_check G t = Some (cmd_post G c).
+  forall (v : variant) (G : sctx) (c : smt_cmd), cmd_pre v G c ->
+    exists t, ser_cmd v c = Ok t /\ cmd_check G t = Some (cmd_post G c).
 Proof. exact ser_cmd_wf_lemma. Qed.
 Print Assumptions C05_ser_cmd_wf.
 
 (** Assumptions that are 1-bit symbols or their negations are propositional literals in the
     strict sense of [check-sat-assuming]. *)
 Theorem C05_assumption_literal :
-  forall n : string, name_ok n = true ->
-    is_prop_literal (ser (BVSymbol n 1) false) = true /\
-    is_prop_literal (ser (BVNot (BVSymbol n 1) 1) false) = true.
+  forall (v : variant) (n : string), name_ok v n = true ->
+    is_prop_literal (ser v (BVSymbol n 1) false) = true /\
+    is_prop_literal (ser v (BVNot (BVSymbol n 1) 1) false) = true.
 Proof. exact assumption_literal. Qed.
 Print Assumptions C05_assumption_literal.
 
-(** Recorded defect: [SetInfo] is written with the command name [set-option]; every other
-    command carries the name SMT-LIB gives it. *)
+(** Repaired code (patches/0015): every command carries the name SMT-LIB gives it. *)
+Theorem C05_cmd_head :
+  forall c t, ser_cmd Fix c = Ok t -> sx_head t = Some (cmd_std_head c).
+Proof. exact cmd_head_fix. Qed.
+Print Assumptions C05_cmd_head.
+
+(** Recorded defect of the current code: [SetInfo] is written with the command name [set-option];
+    every other command carries the name SMT-LIB gives it. *)
 Theorem C05_cmd_head_refuted :
-  exists c t, ser_cmd c = Ok t /\ sx_head t <> Some (cmd_std_head c).
+  exists c t, ser_cmd Cur c = Ok t /\ sx_head t <> Some (cmd_std_head c).
 Proof. exact cmd_head_refuted. Qed.
 Print Assumptions C05_cmd_head_refuted.
 
 Theorem C05_cmd_head_outside_known :
-  forall c t, (forall k v, c <> CSetInfo k v) -> ser_cmd c = Ok t -> sx_head t = Some (cmd_std_head c).
+  forall c t, (forall k v, c <> CSetInfo k v) -> ser_cmd Cur c = Ok t -> sx_head t = Some (cmd_std_head c).
 Proof. exact cmd_head_outside_known. Qed.
 Print Assumptions C05_cmd_head_outside_known.
 
@@ -100,7 +118,8 @@ Print Assumptions C05_reference_coherent.
 (** [built] cannot be dropped: for a 1-bit source, a no-op slice (not constructible through
     [Context::slice]) would be written ill-sorted even if the stray parenthesis were absent. *)
 Theorem C05_noop_slice_latent :
-  exists G e, wt e = true /\ symbols_declared G e = true /\ built e = false /\ scheck G (ser e false) = None.
+  forall v : variant,
+  exists G e, wt e = true /\ symbols_declared v G e = true /\ built e = false /\ scheck G (ser v e false) = None.
 Proof. exact noop_slice_latent. Qed.
 Print Assumptions C05_noop_slice_latent.
 
@@ -112,18 +131,27 @@ Example C05_example :
   let rho := {| rho_bv := fun n _ => if String.eqb n "c" then 1 else 9; rho_arr := fun _ _ _ i => 3 + i |} in
   let e := BVEqual (BVSignedDiv (BVSymbol "a b" 4) (BVLiteral 4 0) 4)
                    (BVAdd (BVZeroExt (BVSymbol "c" 1) 3 4) (BVArrayRead (ArraySymbol "m" 1 4) (BVSymbol "c" 1) 4) 4) in
-  wt e = true /\ built e = true /\ symbols_declared G e = true /\
-  scheck G (ser e false) = Some SoBool /\
-  seval (smodel_of G rho) (ser e false) = Some (SVBool false) /\ ebv rho e = 0.
-Proof. vm_compute. repeat split. Qed.
+  forall v : variant,
+  wt e = true /\ built e = true /\ symbols_declared v G e = true /\
+  scheck G (ser v e false) = Some SoBool /\
+  seval (smodel_of G rho) (ser v e false) = Some (SVBool false) /\ ebv rho e = 0.
+Proof. intros G rho e v. destruct v; vm_compute; repeat split. Qed.
 
 Example C05_cmd_example :
   let G := upd empty_ctx "x" (SoBV 8) in
   let c := CDefineConst (BVSymbol "y z" 1) (BVGreater (BVSymbol "x" 8) (BVLiteral 8 3)) in
-  cmd_pre G c /\
-  exists t, ser_cmd c = Ok t /\ cmd_check G t = Some (cmd_post G c) /\ cmd_post G c "y z" = Some SoBool.
+  forall v : variant,
+  cmd_pre v G c /\
+  exists t, ser_cmd v c = Ok t /\ cmd_check G t = Some (cmd_post G c) /\ cmd_post G c "y z" = Some SoBool.
 Proof.
-  split.
-  - cbn [cmd_pre]. unfold fresh_sym, expr_ok. cbn [symbol_name_of]. repeat split; vm_compute; reflexivity.
-  - eexists. split; [reflexivity|]. split; vm_compute; reflexivity.
+  intros G c v. destruct v.
+  all: split.
+  all: try (cbn [cmd_pre]; unfold fresh_sym, expr_ok; cbn [symbol_name_of]; repeat split; vm_compute; reflexivity).
+  all: eexists; split; [reflexivity|]; split; vm_compute; reflexivity.
 Qed.
+
+(** Non-vacuity of the repaired quoting: a reserved word as a name. *)
+Example C05_reserved_example :
+  escape_id Cur "let" = "let" /\ symbol_name "let" = None /\
+  escape_id Fix "let" = "|let|" /\ symbol_name "|let|" = Some "let".
+Proof. vm_compute. repeat split. Qed.
